@@ -44,6 +44,18 @@ CLAIMED = {
             "7 embeddings; under inexact embeddings a module sharing an edge with a cell may be listed with ratio 0 (last-bit overlap); "
             "completely blocked dies and dies/netlists rejected at load are outside",
             "DESIGN.md 4 (C03)", ["Geometry", "DieOps", "AllocOps", "InitAlloc", "InitAllocTrace"]),
+    "C07": ("TLA+ specs SatLayer (allowed sets + specified CNF) and Robdd (isclause, constructrobdd with the shared store, Tseitin, "
+            "quadratic/Heule, DPLL in TLA+) model-checked by TLC (Exact: Proj(cnf) = allowed over all histories of bounded universes); every "
+            "history replayed as one freshly forked process on real SATManager objects; the real CNF projected onto the user variables with "
+            "pysat under unit assumptions after every post; solve()/value()/evalexpr() read; all observations trace-validated by TLC (SatTrace)",
+            "All clauses, implications, at-most-one groups (pairwise, Heule k=2..5, size 0..7, repeats/complements) and pseudo-Boolean "
+            "inequalities (<=2 raw terms with zero/negative/repeated coefficients, ordered 3-term, 5 operators, both constructions) of the "
+            "bounded universes, alone and after 1-3 earlier encodings in the same or other managers, are enumerated by TLC and judged by TLC "
+            "against the real CNF's projection; random larger histories follow the same path.",
+            "bounded universes (3 user variables, 7 for at-most-one; coefficients -2..3; <=3 posts); random to 7 variables / 7 terms / "
+            "coefficients -9..12 / 3 interleaved managers; refusal = exception, permitted only for pb =,>,< and Heule k<3; store contents vs "
+            "Robdd model are model conformance only; TLC coverage-based vacuity replaced by a check on the printed histories",
+            "DESIGN.md 4 (C07)", ["PBExpr", "Robdd", "SatLayer", "SatTrace"]),
     "C09": ("TLA+ spec Legal (legality clauses from the statement + the legaliser's equation groups transcribed from legalfloor.py) "
             "model-checked by TLC: 'system met <=> legal' as an invariant over bounded universes, incl. an as-coded model that must fail; "
             "TLC-generated netlists with their legal / single-clause-violating configurations replayed on the real tools.legalfloor Model "
@@ -137,6 +149,16 @@ CLAIMED = {
             "cells and of random grids, both orientations, Point and numpy vertices, 8 embeddings; a refusal assertion counts as 'no "
             "decomposition'; 'trunk first' = any valid trunk first after loading",
             "DESIGN.md 4 (C15)", ["Geometry", "Stog", "Strop", "StropTrace"]),
+    "C16": ("TLA+ spec PBExpr (normal-form arithmetic of Literal/Term/Expr/Ineq next to truth tables computed from the build history) "
+            "model-checked by TLC over every normal form of a bounded box; every TLC state x every operation replayed on the real classes "
+            "under 4 spellings; results and operands read back through Expr.c/.t and Ineq.lhs/rhs/op and trace-validated by TLC "
+            "(PBExprTrace); seeded random long builds",
+            "Every normal form of the box with every +, -, integer *, nested expression and all five comparisons is enumerated by TLC with the "
+            "property as invariants; each real result is judged by TLC under every assignment (value, positive coefficients, one entry per "
+            "variable, inequality <=> direct comparison, operands unchanged).",
+            "bounded: 2 variables (quick) / 3 (thorough), |c|<=3, coefficients <=3; random to 5 variables, coefficients +-60, 36 steps; int "
+            "operands only; operator forms Python itself rejects are not generated; dictionary order is model conformance only",
+            "DESIGN.md 4 (C16)", ["PBExpr", "PBExprTrace"]),
     "C17": ("TLA+ spec Disc (integer case analysis on (r1,r2,D2), Heron margin of the acos domain, exact k*pi values, closed forms, Lipschitz "
             "enclosure, sweep properties) model-checked by TLC; TLC-generated lattice offsets evaluated on circle_circle_intersection_area in both "
             "argument orders under 8 float embeddings x +-3 ulp shifts; observed sweeps trace-validated by TLC (DiscTrace)",
@@ -179,6 +201,17 @@ CLAIMED = {
             "DESIGN.md 4 (C20)", ["Process", "ProcessTrace"]),
 }
 
+EXTRA = [
+    ("PIPELINE", ["C19", "C13", "C14", "C10"], "TLA+ spec Pipeline: documents in flight between netgen -> spectral -> force -> glbfloor, stage "
+     "contracts model-checked by TLC; TLC-generated flows executed with the real stage entry points and trace-validated (PipelineTrace)"),
+    ("USCS", ["C19", "C05"], "TLA+ spec Uscs: bookshelf benchmark parser tools/uscs_parser (render -> parse -> FPEF round trip) model-checked "
+     "by TLC and bound to the real parser + Netlist (UscsTrace)"),
+    ("VERIFIER", ["C09"], "TLA+ spec Verifier: the stand-alone floorplan verifier tools/verifier judged against Legal!Clauses"),
+    ("LEGALPOST", ["C09"], "TLA+ spec LegalPost: legaliser post-processing turn_off_rects / fuse_rects contracts"),
+    ("KK", ["C13"], "TLA+ spec KamadaKawai: step contract of the Kamada-Kawai relocation stage (graph distances exact)"),
+    ("NETAPI", ["C04", "C05", "C13"], "TLA+ spec NetApi: the loaded Netlist/Module as a mutable object: mutators, cached views, coherence"),
+]
+
 NOT_YET = "check not built yet in this round (planned, see DESIGN.md section 4); no claim is made"
 
 
@@ -215,6 +248,14 @@ def main():
              "serves_properties": sorted(CLAIMED),
              "kind_free_text": "TLC 1.8 model checker: exhaustive bounded model checking of the TLA+ specs in specs/, "
                                "behaviour generation, and batch trace validation of observations of the real code"},
+        ] + [
+            {"name": name, "path": f"harness/drivers/{name.lower()}.py", "serves_properties": serves,
+             "kind_free_text": "extra engine beyond the 20 listed properties (run: bin/check " + name + "; evidence/" + name + ".json): " + text}
+            for (name, serves, text) in EXTRA if os.path.exists(os.path.join(VERIF, "harness", "drivers", name.lower() + ".py"))
+        ] + [
+            {"name": "tlapm", "path": "/usr/local/bin/tlapm", "serves_properties": ["C18"],
+             "kind_free_text": "TLAPS proofs of the cut/halving lemmas of Geometry.tla (specs/proofs/GeometryProofs.tla, 23 obligations), "
+                               "run by the C18 thorough tier as an extra"},
         ],
         "checks": checks,
         "not_applicable": na,
